@@ -1418,7 +1418,11 @@ impl<'t, 'b> G<'t, 'b> {
         match kind {
             "type-plus" => Stmt::AttrNode { id, node: target, attrs: vec![Attr { name: "f".into(), value: Some(Expr::Call { func: "plus".into(), args: vec![Expr::Str("a".into()), Expr::Int(1, 0)] }) }] },
             "type-not" => Stmt::Let { id, var: VarRef::Plain { id: self.id(), name: self.fresh_name("flt") }, value: Expr::Call { func: "not".into(), args: vec![Expr::Int(1, 0)] } },
-            "unknown-function" => Stmt::Let { id, var: VarRef::Plain { id: self.id(), name: self.fresh_name("flt") }, value: Expr::Call { func: "no-such-function".into(), args: vec![Expr::Int(1, 0)] } },
+            "unknown-function" => {
+                // some names share their first word with a standard function
+                let func = ["no-such-function", "start-nothing", "is-nothing", "named-nothing", "node-nothing"][self.t.choose(5)].to_string();
+                Stmt::Let { id, var: VarRef::Plain { id: self.id(), name: self.fresh_name("flt") }, value: Expr::Call { func, args: vec![Expr::Int(1, 0)] } }
+            }
             "edge-non-node" => Stmt::Edge { id, src: target, dst: Expr::Int(3, 0) },
             "attr-non-node" => Stmt::AttrNode { id, node: Expr::Str("s".into()), attrs: vec![Attr { name: "f".into(), value: Some(Expr::Int(1, 0)) }] },
             "attr-conflict" | "edge-attr-conflict" => {
@@ -1638,7 +1642,8 @@ impl<'t, 'b> G<'t, 'b> {
         const KINDS: &[&str] = &["(identifier) @", "(call) @", "(module) @", "(expression_statement) @", "(pass_statement) @"];
         let kind = KINDS[self.t.choose(KINDS.len())];
         let name = self.fresh_name("an");
-        let values = [Expr::Null, Expr::Str("v".into()), Expr::Int(1, 0), Expr::True, Expr::Str("".into())];
+        // `1` and "1" print alike and are different values
+        let values = [Expr::Null, Expr::Str("v".into()), Expr::Int(1, 0), Expr::True, Expr::Str("".into()), Expr::Str("1".into())];
         let mk = |g: &mut Self, c: &str, body: Vec<Stmt>| Stanza { id: g.id(), query: format!("{}{}", kind, c), captures: vec![Cap { name: c.to_string(), quant: Quant::One }], body, pool: usize::MAX };
         let sc = |g: &mut Self, c: &str, n: &str| {
             let scope = Box::new(Expr::Capture { id: g.id(), name: c.to_string() });
@@ -1654,6 +1659,31 @@ impl<'t, 'b> G<'t, 'b> {
             let node = sc(self, c, &name);
             let st = Stmt::AttrNode { id: self.id(), node, attrs: vec![Attr { name: "shared".into(), value: Some(v) }] };
             out.push(mk(self, c, vec![st]));
+        }
+        // a plain value next to the node, and stanzas that hand it to an attribute shorthand or
+        // read it inside a set comprehension: whichever stanza comes first, these are evaluated
+        // only after every stanza has run
+        if self.cfg.shorthands && self.t.chance(1, 2) {
+            let pv = self.fresh_name("pv");
+            let def_v = Stmt::Let { id: self.id(), var: VarRef::Scoped { id: self.id(), scope: Expr::Capture { id: self.id(), name: "v".into() }, name: pv.clone() }, value: Expr::Str("plain".into()) };
+            out.push(mk(self, "v", vec![def_v]));
+            if self.t.chance(1, 2) {
+                let shn = self.fresh_name("idsh");
+                let item = Item::Shorthand { id: self.id(), name: shn.clone(), var_id: self.id(), var: "idsh_p".into(), attrs: vec![Attr { name: format!("{}_a", shn), value: Some(Expr::Var { id: self.id(), name: "idsh_p".into() }) }] };
+                self.extra_items.push(item);
+                let node = sc(self, "w", &name);
+                let arg = sc(self, "w", &pv);
+                let st = Stmt::AttrNode { id: self.id(), node, attrs: vec![Attr { name: shn, value: Some(arg) }] };
+                out.push(mk(self, "w", vec![st]));
+                self.features.insert("shorthand-argument-read-from-another-stanza");
+            } else {
+                let node = sc(self, "w", &name);
+                let elem = Expr::Scoped { id: self.id(), scope: Box::new(Expr::Var { id: self.id(), name: "sz".into() }), name: pv.clone() };
+                let comp = Expr::SetComp { id: self.id(), elem: Box::new(elem), var_id: self.id(), var: "sz".into(), src: Box::new(Expr::List(vec![Expr::Capture { id: self.id(), name: "w".into() }])) };
+                let st = Stmt::AttrNode { id: self.id(), node, attrs: vec![Attr { name: "from_set".into(), value: Some(comp) }] };
+                out.push(mk(self, "w", vec![st]));
+                self.features.insert("set-comprehension-element-read-from-another-stanza");
+            }
         }
         // a fourth stanza holds the stored node in a local and prints it (or a call on it)
         if self.cfg.prints && self.t.chance(1, 2) {
